@@ -90,8 +90,25 @@ func (f *Frame) evalModItems(env *Env, exprs []ast.Expr) (items []modItem) {
 			default:
 				env.fail(x, "bad modifies item")
 			}
+		case *ast.StarExpr:
+			base := env.eval(x.X)
+			pt, ok := base.T.Underlying().(*types.Pointer)
+			if !ok {
+				env.fail(x, "modifies: * of non-pointer")
+			}
+			if _, isS := pt.Elem().Underlying().(*types.Struct); isS {
+				items = append(items, f.allFieldItems(env, base, x)...)
+			} else {
+				items = append(items, modItem{kind: "region", heaps: e.memHeaps(pt.Elem()), ref: base.C[0]})
+			}
 		case *ast.SelectorExpr:
 			base := env.eval(x.X)
+			if _, isI := base.T.Underlying().(*types.Interface); isI {
+				if g := env.ifaceGhost(x.Sel.Name); g != nil {
+					items = append(items, modItem{kind: "field", heaps: []*heapInfo{e.ghostHeap(g.Struct, g)}, ref: base.C[0]})
+					continue
+				}
+			}
 			pt, ok := base.T.Underlying().(*types.Pointer)
 			if !ok {
 				env.fail(x, "modifies: base is not a pointer")
@@ -267,7 +284,7 @@ func (f *Frame) frameObligations(kind, reach string, before, after *State, items
 		if a == b {
 			continue
 		}
-		if strings.HasPrefix(k, "G!alloc") {
+		if strings.HasPrefix(k, "G!alloc") || k == "G!held" {
 			continue
 		}
 		e.nf++
@@ -595,8 +612,12 @@ func (f *Frame) inline(fn *ssa.Function, fc *FuncContract, args []Val, bindings 
 
 func (f *Frame) runDefers(reach string, st *State) string {
 	e := f.e
+	anc := ancestors(f.curBlock)
 	for i := len(f.defers) - 1; i >= 0; i-- {
 		d := f.defers[i]
+		if anc != nil && !anc[d.blk] {
+			continue // registered on a path that cannot reach this return
+		}
 		active := and(reach, d.guard)
 		stA := st.clone()
 		key := f.calleeKey(d.call)
@@ -667,7 +688,7 @@ func (f *Frame) pointClauses(when, point, reach string, st *State, args []Val, r
 		}
 	}
 	for _, g := range f.fc.Ghosts {
-		if g.Point != when+" "+point {
+		if g.Point != when+" "+point || !f.modeOK(g) {
 			continue
 		}
 		f.applyGhost(g, mkEnv(), reach, st)
@@ -698,12 +719,21 @@ func (f *Frame) applyGhost(g *Clause, env *Env, reach string, st *State) {
 		env.fail(g.LHS, "ghost target must be a ghost field")
 	}
 	base := env.eval(sel.X)
-	pt, ok := base.T.Underlying().(*types.Pointer)
-	if !ok {
-		env.fail(g.LHS, "ghost target base must be a pointer")
+	var gf *GhostField
+	var sn string
+	if _, isI := base.T.Underlying().(*types.Interface); isI {
+		gf = env.ifaceGhost(sel.Sel.Name)
+		if gf != nil {
+			sn = gf.Struct
+		}
+	} else {
+		pt, ok := base.T.Underlying().(*types.Pointer)
+		if !ok {
+			env.fail(g.LHS, "ghost target base must be a pointer")
+		}
+		sn = structName(pt.Elem())
+		gf = env.ghostField(sn, sel.Sel.Name)
 	}
-	sn := structName(pt.Elem())
-	gf := env.ghostField(sn, sel.Sel.Name)
 	if gf == nil {
 		env.fail(g.LHS, "not a ghost field")
 	}
@@ -789,21 +819,46 @@ func (f *Frame) acquireIf(lock, cond string, st *State, point string) {
 	e := f.e
 	h := f.lockHeap()
 	cur := e.heapTerm(st, h)
-	f.addObl("lock@"+point, "notheld", cond, not(sx("select", cur, lock)), nil, nil, "")
+	if !strings.Contains(point, "Lock#") { // sync.Mutex: deadlock freedom is out of scope
+		f.addObl("lock@"+point, "notheld", cond, not(sx("select", cur, lock)), nil, nil, "")
+	}
 	// havoc protected state, assume invariant (under cond)
 	if lv := f.lockValueAt(point); lv != nil {
 		if ld, owner, ok := f.findLock(lv); ok {
 			pre := st.clone()
 			var items []modItem
+			ownerExpr := func(p string) ast.Expr {
+				i := strings.Index(p, ".")
+				x, err := parseExprAt("owner."+p[i+1:], "lock", 0)
+				if err != nil {
+					e.fail(f, err)
+					return ast.NewIdent("*")
+				}
+				return x
+			}
 			for _, p := range ld.Protects {
-				i := strings.LastIndex(p, ".")
-				x := &ast.SelectorExpr{X: ast.NewIdent("owner"), Sel: ast.NewIdent(p[i+1:])}
 				env := f.env(st)
 				env.vars["owner"] = owner
-				items = append(items, f.evalModItems(env, []ast.Expr{x})...)
+				items = append(items, f.evalModItems(env, []ast.Expr{ownerExpr(p)})...)
+			}
+			var mono []modItem
+			for _, p := range ld.Monotone {
+				env := f.env(st)
+				env.vars["owner"] = owner
+				mono = append(mono, f.evalModItems(env, []ast.Expr{ownerExpr(p)})...)
 			}
 			hst := st.clone()
 			f.havocItems(hst, items, cond)
+			// monotone shared fields: another thread may have set them; once
+			// non-zero they never change
+			for _, it := range mono {
+				for _, h := range it.heaps {
+					oldv := sx("select", e.heapTerm(hst, h), it.ref)
+					nv := e.fresh("mono."+h.name, h.elem)
+					e.assume("true", imp(not(eq(oldv, e.zeroComp(h.elem))), eq(nv, oldv)))
+					e.setHeap(hst, h, sx("store", e.heapTerm(hst, h), it.ref, nv))
+				}
+			}
 			// conditional havoc: merge
 			if cond == f.blockR[f.curBlock] {
 				*st = *hst
